@@ -169,6 +169,37 @@ Definition expand_data_id_dc_x (u : universe) (D : db) (given : recmap) (dims : 
   rbind (standardize_dc u dims d kwargs defaults) (expand_x u D (carried_records d ++ given)).
 
 (* ---------------------------------------------------------------------------------------------------------------- *)
+(* 1c. DataCoordinate arguments after /repo 822ddb5 and b51cefc                                                     *)
+(* ---------------------------------------------------------------------------------------------------------------- *)
+(* 822ddb5: the `mapping.subset(dimensions.names)` short-cut of standardize translates subset's KeyError into
+   DimensionNameError.  (standardize_dc of Model/DataId.v is the code before that commit.) *)
+Definition standardize_dc2 (u : universe) (dims : option (list string)) (d : dataid) (kwargs defaults : amap) : result dataid :=
+  match dims with
+  | None => standardize_dc u None d kwargs defaults
+  | Some l =>
+    rbind (conform_id u l) (fun G =>
+      if forallb (fun k => negb (memb k (gnames G))) (akeys kwargs)
+      then match subset u d (gnames G) with Err EKeyError => Err EDimensionName | r => r end
+      else std_core G ((kwargs ++ dmapping d) ++ defaults))
+  end.
+
+(* b51cefc: the records attached to the argument are reused only when
+   `all(standardized.mapping.get(k, v) == v for k, v in dataId.mapping.items())` *)
+Definition carried_ok (d s : dataid) : bool :=
+  forallb (fun kv => match dc_get s (fst kv) with Some w => value_eqb w (snd kv) | None => true end) (dmapping d).
+
+Definition carried_records2 (d s : dataid) : recmap := if carried_ok d s then carried_records d else [].
+
+(* expandDataId(dataId : DataCoordinate, ...) as repaired; direct-key and code-exact fetch *)
+Definition expand_data_id_dc2 (u : universe) (D : db) (given : recmap) (dims : option (list string)) (d : dataid)
+    (kwargs defaults : amap) : result dataid :=
+  rbind (standardize_dc2 u dims d kwargs defaults) (fun s => expand_r u D (carried_records2 d s ++ given) s).
+
+Definition expand_data_id_dc_x2 (u : universe) (D : db) (given : recmap) (dims : option (list string)) (d : dataid)
+    (kwargs defaults : amap) : result dataid :=
+  rbind (standardize_dc2 u dims d kwargs defaults) (fun s => expand_x u D (carried_records2 d s ++ given) s).
+
+(* ---------------------------------------------------------------------------------------------------------------- *)
 (* 2. alternate keys                                                                                                *)
 (* ---------------------------------------------------------------------------------------------------------------- *)
 (* a stored row as _rewrite_data_id sees it: the values of the dimension's required dimensions (in `required` order, the
